@@ -74,6 +74,17 @@ func hexDecodeStr(h string) (string, error) {
 	return string(b), nil
 }
 
+// version ids issued so far per key (puts and completions), read from the implementation's answers
+func c08KnownVids(hist []*prog.Step) map[string][]string {
+	m := map[string][]string{}
+	for _, s := range hist {
+		if (s.Op.Kind == "putObject" || s.Op.Kind == "completeUpload") && s.Obs.Code == "" && s.Obs.NewVid != "" {
+			m[s.Op.K] = append(m[s.Op.K], s.Obs.NewVid)
+		}
+	}
+	return m
+}
+
 const c08Big = 5 * 1024 * 1024
 
 func c08Next(versioned bool) func(g *prog.Gen, idx int, hist []*prog.Step) *prog.Op {
@@ -104,6 +115,23 @@ func c08Next(versioned bool) func(g *prog.Gen, idx int, hist []*prog.Step) *prog
 				return &prog.Op{Kind: "getObject", Caller: "root", B: b, K: keys[1]}
 			case 3:
 				return &prog.Op{Kind: "headObject", Caller: "root", B: b, K: keys[0]}
+			}
+			if !versioned {
+				return nil
+			}
+			// versioned bucket: the versions a completion (or an upload) replaced must still read back exactly
+			if n-total == 4 {
+				return &prog.Op{Kind: "listVersions", Caller: "root", B: b}
+			}
+			var all [][2]string
+			vids := c08KnownVids(hist)
+			for _, k := range keys {
+				for _, v := range vids[k] {
+					all = append(all, [2]string{k, v})
+				}
+			}
+			if i := n - total - 5; i < len(all) {
+				return &prog.Op{Kind: "getObject", Caller: "root", B: b, K: all[i][0], Vid: all[i][1]}
 			}
 			return nil
 		}
